@@ -8,10 +8,12 @@ package main
 // which fail with ENOENT but are logged by strace in program order.
 
 import (
+	"errors"
 	"fmt"
 	"math"
 	"os"
 	"path/filepath"
+	"runtime"
 	"sort"
 	"strconv"
 	"strings"
@@ -45,7 +47,7 @@ var fsOpCode = map[string]int{"store": 1, "delete": 2, "open": 3, "close": 4, "w
 
 func fsChildMain(args []string) int {
 	if len(args) < 3 {
-		fmt.Fprintln(os.Stderr, "usage: wh fschild wal|fs <dir> <segsize> <op>...")
+		fmt.Fprintln(os.Stderr, "usage: wh fschild wal|fs|fsf <dir> <segsize> <op>...")
 		return 2
 	}
 	mode, dir := args[0], args[1]
@@ -60,6 +62,9 @@ func fsChildMain(args []string) int {
 	defer fsEnd() // error paths return before the workload's own end marker
 	if mode == "wal" {
 		return fsChildWAL(dir, seg, ops)
+	}
+	if mode == "fsf" {
+		return fsChildFault(dir, seg, ops)
 	}
 	return fsChildFS(dir, seg, ops)
 }
@@ -304,6 +309,117 @@ func fsChildFS(dir string, seg int, ops []string) int {
 		wf.Close()
 	}
 	if mdb != nil {
+		mdb.Close()
+	}
+	return 0
+}
+
+// The fault scenarios (`fsf` lines) run with the main goroutine pinned to the
+// main thread: strace counts the invocations of an injected syscall per
+// thread, so every fs-layer call must be issued by the thread that also made
+// the start-up calls (LockOSThread in an init function keeps main on it).
+func init() {
+	if len(os.Args) > 2 && os.Args[1] == "fschild" && os.Args[2] == "fsf" {
+		runtime.LockOSThread()
+	}
+}
+
+var errNoHandle = errors.New("harness: no open handle / db for this call")
+
+// fsChildFault drives the fs layer like fsChildFS but keeps going after an
+// error (one syscall failure is injected by strace) and reports the result of
+// every call through a marker: /verif-mark/fs/<i>/ok | err.  Conventions (part
+// of the model, Discipline.v fs_step_f): Write / Sync / Close without a handle
+// and CommitState without an open db issue no syscall and report an error;
+// Delete first closes the handle of that name; Load first closes a db left
+// open by an earlier Load (bbolt's flock would block the new one forever).
+func fsChildFault(dir string, seg int, ops []string) int {
+	vfs := walfs.New()
+	h := map[string]types.WritableFile{}
+	var mdb *metadb.BoltMetaDB
+	mopen := false
+	name := func(s string) string {
+		v, _ := strconv.Atoi(s)
+		return fmt.Sprintf("%020d-%016x.wal", v, v)
+	}
+	for i, op := range ops {
+		f := strings.Split(op, ":")
+		var err error
+		fsMark("fs", i, "call")
+		switch f[0] {
+		case "cr":
+			var wf types.WritableFile
+			wf, err = vfs.Create(dir, name(f[1]), uint64(seg))
+			if err == nil {
+				h[f[1]] = wf
+			}
+		case "ow":
+			var wf types.WritableFile
+			wf, err = vfs.OpenWriter(dir, name(f[1]))
+			if err == nil {
+				h[f[1]] = wf
+			}
+		case "wr":
+			if h[f[1]] == nil {
+				err = errNoHandle
+				break
+			}
+			off, _ := strconv.Atoi(f[2])
+			n, _ := strconv.Atoi(f[3])
+			b := make([]byte, n)
+			for k := range b {
+				b[k] = 0xab
+			}
+			_, err = h[f[1]].WriteAt(b, int64(off))
+		case "sy":
+			if h[f[1]] == nil {
+				err = errNoHandle
+				break
+			}
+			err = h[f[1]].Sync()
+		case "cl":
+			if h[f[1]] == nil {
+				err = errNoHandle
+				break
+			}
+			err = h[f[1]].Close()
+			delete(h, f[1])
+		case "de":
+			if h[f[1]] != nil {
+				h[f[1]].Close()
+				delete(h, f[1])
+			}
+			err = vfs.Delete(dir, name(f[1]))
+		case "mi":
+			if mdb != nil && mopen {
+				mdb.Close()
+			}
+			mopen = false
+			mdb = &metadb.BoltMetaDB{}
+			_, err = mdb.Load(dir)
+			mopen = err == nil
+		case "mc":
+			if mdb == nil || !mopen {
+				err = errNoHandle
+				break
+			}
+			err = mdb.CommitState(types.PersistentState{NextSegmentID: uint64(i)})
+		default:
+			fmt.Printf("ERR %d unknown op %q\n", i, op)
+			return 2
+		}
+		if err != nil {
+			fsMark("fs", i, "err")
+			fmt.Printf("E %d %s %v\n", i, op, err)
+		} else {
+			fsMark("fs", i, "ok")
+		}
+	}
+	fsEnd()
+	for _, wf := range h {
+		wf.Close()
+	}
+	if mdb != nil && mopen {
 		mdb.Close()
 	}
 	return 0
